@@ -90,7 +90,7 @@ struct Stats {
     int tasks = 0;
     int status = RS_OK;
     // probes
-    uint64_t lock_contended = 0, cond_waits = 0, signals_no_waiter = 0, timeouts_fired = 0;
+    uint64_t lock_contended = 0, cond_waits = 0, signals_no_waiter = 0, timeouts_fired = 0, unlock_not_owner = 0;
 };
 
 // Called (with the baton) when the run cannot continue: deadlock or budget.
